@@ -87,7 +87,13 @@ def run(chk, tier):
     import sizeofrule
     nso = sizeofrule.run(chk, P, list(P.units))
     chk.floor("R-SIZEOF", "typed block operations", nso, 40)
-    chk.decided += ['typed block copies measure the object they copy (sizeof consistency)',
+    chk.rule("R-DANGLE", "a local pointer stored into a field the program releases through (`X->f = p`) and then released by the same function never leaves the field unchanged at an exit: "
+             "explored paths store -> release of the same local -> no later store to the field -> exit are reported (the owner would release the block again)")
+    import consumed as _consumed
+    ndg = _consumed.dangling(chk, P, ["topology.c", "distances.c", "memattrs.c", "cpukinds.c"])
+    chk.floor("R-DANGLE", "stores of a local into an owning field", ndg, 3)
+    chk.decided += ['a failed step never leaves an owning field pointing at a block the function has already released (no dangling pointer for the destructor to release again)',
+                    'typed block copies measure the object they copy (sizeof consistency)',
                     'per-slot loops over fixed-size array fields cover every slot',
                     'no local allocation of the duplication code is dropped on a path to a return',
                     'a copy records for each heap array the capacity it was actually allocated with',
